@@ -110,6 +110,40 @@ class Obj:
         return id(self)
 
 
+class EnumVal(Obj):
+    """A member of an enum class of the analysed code: one object per (class, name), never copied (identity is its meaning)."""
+    _members = {}
+
+    def __init__(self, cls, name, value, int_like=False):
+        Obj.__init__(self, 'enum:%s.%s' % (getattr(cls, 'name', cls), name),
+                     {'name': name, 'value': value, '_name_': name, '_value_': value, '__closed': True}, cls=cls)
+        self.int_like = int_like
+
+    @classmethod
+    def of(cls, k, name, value, int_like=False):
+        key = (getattr(k, 'fullname', repr(k)), name)
+        if key not in cls._members:
+            cls._members[key] = EnumVal(k, name, value, int_like)
+        return cls._members[key]
+
+    def __repr__(self):
+        return '<%s: %r>' % (self.label[5:], self.attrs['value'])
+
+    def __deepcopy__(self, memo):
+        return self
+
+    def __eq__(self, other):
+        if self.int_like and isinstance(other, (int, float)) and not isinstance(other, bool):
+            return self.attrs['value'] == other
+        return self is other
+
+    def __ne__(self, other):
+        return not self.__eq__(other)
+
+    def __hash__(self):
+        return hash(self.label)
+
+
 class ListObj(list):
     """An instance of a repository class that derives from list: a real list with attributes."""
     def __init__(self, cls=None, label='list'):
@@ -127,6 +161,18 @@ class ListObj(list):
 
     def __hash__(self):
         return id(self)
+
+
+class DequeList(list):
+    """collections.deque of the analysed code: a list with appendleft / popleft / extendleft / rotate (and an optional maxlen)."""
+    maxlen = None
+
+    def __deepcopy__(self, memo):
+        d = DequeList()
+        memo[id(self)] = d
+        d.maxlen = self.maxlen
+        list.extend(d, (copy.deepcopy(x, memo) for x in self))
+        return d
 
 
 class TextObj(str):
@@ -958,6 +1004,143 @@ class Interp:
             for k, lst in res.items():
                 outs.setdefault(k, []).extend(lst)
         return outs
+
+    def st_Match(self, n, s):
+        """match subject: case pattern [if guard]: ...  - the first case whose pattern matches (and whose guard holds) runs."""
+        outs = {}
+        for s2, subj in self.expr(n.subject, s):
+            if self.precise_exc and '__exc' in s2.env:
+                outs.setdefault('fall', []).append((s2, None))
+                continue
+            states = [s2]
+            for case in n.cases:
+                nxt = []
+                for st in states:
+                    binds = {}
+                    r = self._match_pattern(case.pattern, subj, st, binds)
+                    if r is None:
+                        self.unknown_branches.append('case %s (line %s)' % (_text(case.pattern)[:60], case.pattern.lineno))
+                        f = st.fork()
+                        nxt.append(f)              # may not match: the later cases
+                        r = True                   # may match: this case
+                    if not r:
+                        nxt.append(st)
+                        continue
+                    for k, v in binds.items():
+                        st.env[k] = v
+                    taken = [st]
+                    if case.guard is not None:
+                        taken = []
+                        for s3, ok in self.branch(case.guard, st):
+                            (taken if ok else nxt).append(s3)
+                    if taken:
+                        for kind, lst in self.block(case.body, taken).items():
+                            outs.setdefault(kind, []).extend(lst)
+                states = nxt
+                if not states:
+                    break
+            outs.setdefault('fall', []).extend((st, None) for st in states)
+        return outs
+
+    def _match_pattern(self, p, v, s, binds):
+        """True / False / None (not determined): does value v match pattern p; captures go to `binds`."""
+        if isinstance(p, ast.MatchAs):
+            if p.pattern is not None:
+                r = self._match_pattern(p.pattern, v, s, binds)
+                if r is not True:
+                    return r
+            if p.name is not None:
+                binds[p.name] = v
+            return True
+        if isinstance(p, ast.MatchOr):
+            unknown = False
+            for alt in p.patterns:
+                b2 = {}
+                r = self._match_pattern(alt, v, s, b2)
+                if r is True:
+                    binds.update(b2)
+                    return True
+                if r is None:
+                    unknown = True
+            return None if unknown else False
+        if v is TOP or isinstance(v, M.Unknown):
+            return None
+        if isinstance(p, ast.MatchValue):
+            want = self.ev(p.value, s)
+            return self.compare(ast.Eq(), v, want, None, None)
+        if isinstance(p, ast.MatchSingleton):
+            return self.compare(ast.Is(), v, p.value, None, None)
+        if isinstance(p, ast.MatchSequence):
+            if isinstance(v, (str, bytes, dict, set)) or not isinstance(v, (list, tuple)):
+                return False if _plain(v) or isinstance(v, (Obj, TextObj)) else None
+            stars = [i for i, e in enumerate(p.patterns) if isinstance(e, ast.MatchStar)]
+            if not stars:
+                if len(v) != len(p.patterns):
+                    return False
+                pairs = list(zip(p.patterns, v))
+            else:
+                i = stars[0]
+                tail = len(p.patterns) - i - 1
+                if len(v) < len(p.patterns) - 1:
+                    return False
+                if p.patterns[i].name is not None:
+                    binds[p.patterns[i].name] = list(v[i:len(v) - tail])
+                pairs = list(zip(p.patterns[:i], v[:i])) + (list(zip(p.patterns[i + 1:], v[len(v) - tail:])) if tail else [])
+            res = True
+            for sub, x in pairs:
+                r = self._match_pattern(sub, x, s, binds)
+                if r is False:
+                    return False
+                if r is None:
+                    res = None
+            return res
+        if isinstance(p, ast.MatchMapping):
+            d = v.attrs.get('__dict') if isinstance(v, Obj) else v
+            if not isinstance(d, dict):
+                return False if _plain(v) else None
+            res = True
+            for k, sub in zip(p.keys, p.patterns):
+                key = self.ev(k, s)
+                if not _plain(key):
+                    return None
+                if key not in d:
+                    return False
+                r = self._match_pattern(sub, d[key], s, binds)
+                if r is False:
+                    return False
+                if r is None:
+                    res = None
+            if p.rest is not None:
+                used = {self.ev(k, s) for k in p.keys}
+                binds[p.rest] = {k: x for k, x in d.items() if k not in used}
+            return res
+        if isinstance(p, ast.MatchClass):
+            k = self.ev(p.cls, s)
+            if p.patterns:
+                return None                       # positional sub-patterns (__match_args__) are not modelled
+            ok = None
+            if isinstance(k, type) and (_plain(v) and not isinstance(v, (TextObj, TokStr))):
+                ok = isinstance(v, k)
+            elif isinstance(k, M.ClassInfo) and isinstance(v, Obj) and isinstance(v.cls, M.ClassInfo) and self.model is not None:
+                ok = k in self.model.mro(v.cls)
+            elif isinstance(k, M.ClassInfo) and _plain(v) and not isinstance(v, (TextObj, TokStr)):
+                ok = False
+            elif isinstance(k, type) and isinstance(v, Obj) and k in (str, int, float, bool, list, tuple, dict, set, bytes):
+                ok = False
+            if ok is not True:
+                return ok
+            res = True
+            for name, sub in zip(p.kwd_attrs, p.kwd_patterns):
+                r0 = self._getattr_value(v, name, s, getattr(p, 'lineno', 0))
+                if r0 is None or r0[0] is TOP:
+                    return None
+                r = self._match_pattern(sub, r0[0], s, binds)
+                if r is False:
+                    return False
+                if r is None:
+                    res = None
+            return res
+        return None
 
     def st_With(self, n, s):
         states = [s]
@@ -2139,6 +2322,22 @@ class Interp:
             return v
         return TOP
 
+    def _enum_kind(self, cls):
+        """'plain' / 'int' / 'str' when `cls` derives from enum.Enum / IntEnum / StrEnum, else None."""
+        if self.model is None:
+            return None
+        kind = None
+        for k in self.model.mro(cls):
+            nm = getattr(k, 'name', '') if isinstance(k, M.External) else ''
+            last = nm.split('.')[-1]
+            if last in ('IntEnum', 'IntFlag'):
+                return 'int'
+            if last == 'StrEnum':
+                return 'str'
+            if last in ('Enum', 'Flag'):
+                kind = kind or 'plain'
+        return kind
+
     def _dynamic_class_attr(self, cls, attr, s):
         """(value,) of a class attribute assigned by the interpreted code (Class.attr = v), looked up along the MRO; None otherwise."""
         if not self.heap or self.model is None or not any(k.startswith('__cls:') for k in s.env):
@@ -2204,6 +2403,15 @@ class Interp:
             return TOP
         if isinstance(base, (M.ClassInfo, M.ModuleInfo)) and m is not None:
             if isinstance(base, M.ClassInfo):
+                ek = self._enum_kind(base)
+                if ek is not None and attr in base.assigns and not attr.startswith('_'):
+                    val = m.class_const(base, attr)
+                    if M.is_unknown(val):
+                        val = self._class_level_object(base, attr)
+                    if isinstance(val, Sym) and val.label.startswith('func:'):
+                        pass
+                    elif val is not TOP:
+                        return EnumVal.of(base, attr, val, int_like=(ek == 'int'))
                 dyn = self._dynamic_class_attr(base, attr, s)
                 if dyn is not None:
                     return dyn[0]
@@ -2250,6 +2458,10 @@ class Interp:
         if isinstance(base, (list, dict)) and attr in ('append', 'extend', 'insert', 'pop', 'copy', 'keys', 'values', 'items', 'get', 'update', 'clear', 'index', 'remove', 'reverse', 'setdefault') \
            and hasattr(type(base), attr):
             return ('boundmethod', base, attr)
+        if isinstance(base, DequeList) and attr in ('appendleft', 'popleft', 'extendleft', 'rotate'):
+            return ('boundmethod', base, attr)
+        if isinstance(base, DequeList) and attr == 'maxlen':
+            return base.maxlen
         if isinstance(base, (list, dict, tuple)) and not isinstance(base, ListObj) and attr in ('__getitem__', '__contains__', '__len__', 'count', 'index') and hasattr(type(base), attr):
             return ('boundmethod', base, attr)         # table.__getitem__ handed to map() and the like
         if isinstance(base, set) and attr in ('add', 'discard', 'remove', 'update', 'clear', 'copy', 'pop', 'union', 'intersection', 'difference', 'issubset', 'issuperset'):
@@ -2603,7 +2815,9 @@ class Interp:
             ml = kwargs.get('maxlen')
             if ml is not None and not isinstance(ml, int):
                 return (TOP,)
-            return (list(items) if ml is None else (list(items)[-ml:] if ml else []),)
+            d_ = DequeList(list(items) if ml is None else (list(items)[-ml:] if ml else []))
+            d_.maxlen = ml
+            return (d_,)
         if ext in ('collections.namedtuple', 'namedtuple') and len(args) >= 2 and isinstance(args[0], str) and _plain(args[1]) and all(_plain(v) for v in kwargs.values()):
             import collections as _coll
             try:
@@ -3420,6 +3634,8 @@ class Interp:
                 return [i.context_expr for i in st.items]
             if isinstance(st, ast.Try):
                 return []
+            if isinstance(st, ast.Match):
+                return [st.subject] + [c.guard for c in st.cases if c.guard is not None]
             if isinstance(st, (ast.FunctionDef, ast.AsyncFunctionDef, ast.ClassDef)):
                 return []
             return [st]
@@ -3432,6 +3648,8 @@ class Interp:
                     out.append(v)
             for h in getattr(st, 'handlers', []) or []:
                 out.append(h.body)
+            for c in getattr(st, 'cases', []) or []:
+                out.append(c.body)
             return out
 
         def find(stmts):
@@ -3489,7 +3707,7 @@ class Interp:
 
     def _resume_stmt(self, st, chain, depth, cs):
         lst = chain[depth][0]
-        if isinstance(st, ast.If):
+        if isinstance(st, (ast.If, ast.Match)):
             return self._resume_level(chain, depth, cs)
         if isinstance(st, (ast.For, ast.While)):
             inner = self._resume_level(chain, depth, cs)
@@ -3650,6 +3868,10 @@ class Interp:
 
     def ev_BinOp(self, n, s):
         a, b = self.ev(n.left, s), self.ev(n.right, s)
+        if isinstance(a, EnumVal) and a.int_like:
+            a = a.attrs['value']
+        if isinstance(b, EnumVal) and b.int_like:
+            b = b.attrs['value']
         if isinstance(n.op, ast.Mod) and isinstance(a, str) and not isinstance(a, M._StringLetters) and isinstance(b, Obj) and self.heap:
             # '...%(name)s...' % mapping-object: each reference is looked up through the object's own __getitem__
             out, pos, ok = [], 0, True
@@ -3739,6 +3961,23 @@ class Interp:
         return result
 
     def compare(self, op, a, b, an=None, bn=None):
+        if isinstance(a, EnumVal) or isinstance(b, EnumVal):
+            if isinstance(op, (ast.Is, ast.IsNot)) and isinstance(a, EnumVal) and isinstance(b, EnumVal):
+                return (a is b) == isinstance(op, ast.Is)
+            if isinstance(op, (ast.Eq, ast.NotEq)) and isinstance(a, EnumVal) and isinstance(b, EnumVal):
+                return (a is b) == isinstance(op, ast.Eq)
+            ua = a.attrs['value'] if isinstance(a, EnumVal) and a.int_like else a
+            ub = b.attrs['value'] if isinstance(b, EnumVal) and b.int_like else b
+            if isinstance(ua, EnumVal) or isinstance(ub, EnumVal):
+                if isinstance(op, (ast.Eq, ast.NotEq)) and (_plain(ua) or _plain(ub)):
+                    return isinstance(op, ast.NotEq)          # a plain enum member equals only itself
+                if isinstance(op, (ast.Is, ast.IsNot)) and (_plain(ua) or _plain(ub) or ua is None or ub is None):
+                    return isinstance(op, ast.IsNot)
+                if isinstance(op, (ast.In, ast.NotIn)) and isinstance(ub, (list, tuple, set, frozenset)) and all(isinstance(x, EnumVal) or _plain(x) for x in ub):
+                    r = any(x is ua for x in ub)
+                    return r if isinstance(op, ast.In) else not r
+                return None
+            a, b = ua, ub
         # syntactic identity:  x is x / x is not x
         if an is not None and bn is not None and isinstance(op, (ast.Is, ast.IsNot)) and _text(an) == _text(bn):
             return isinstance(op, ast.Is)
@@ -4421,9 +4660,38 @@ class Interp:
                     pass
             self.imprecise.append('set.%s with arguments that are not modelled: its effect is lost' % meth)
             return TOP
+        if isinstance(recv, DequeList) and meth in ('appendleft', 'popleft', 'extendleft', 'rotate') and not kwargs:
+            if meth == 'appendleft' and len(args) == 1:
+                recv.insert(0, args[0])
+                if recv.maxlen is not None and len(recv) > recv.maxlen:
+                    recv.pop()
+                return None
+            if meth == 'popleft' and not args:
+                if not recv:
+                    self._pending_exc = 'IndexError'
+                    return TOP
+                return recv.pop(0)
+            if meth == 'extendleft' and len(args) == 1:
+                seq = self._seq_of(args[0])
+                if seq is None:
+                    self.imprecise.append('deque.extendleft with items that are not determined: its effect is lost')
+                    return TOP
+                for x in seq:
+                    recv.insert(0, x)
+                return None
+            if meth == 'rotate' and len(args) <= 1 and all(isinstance(a, int) for a in args):
+                k = (args[0] if args else 1)
+                if recv:
+                    k %= len(recv)
+                    recv[:] = recv[-k:] + recv[:-k] if k else list(recv)
+                return None
+            self.imprecise.append('deque.%s with arguments that are not modelled: its effect is lost' % meth)
+            return TOP
         if isinstance(recv, list):
             if meth == 'append' and len(args) == 1:
                 recv.append(args[0])
+                if isinstance(recv, DequeList) and recv.maxlen is not None and len(recv) > recv.maxlen:
+                    list.pop(recv, 0)
                 return None
             if meth == 'extend' and len(args) == 1 and isinstance(args[0], (list, tuple)):
                 recv.extend(args[0])
